@@ -14,6 +14,7 @@ THEOREMS: dict[str, list[str]] = {
         "Rbacx.C10.c10_policy_is_loaded",
         "Rbacx.C10.c10_sequential_latest",
         "Rbacx.C10.c10_backoff_bounded_step",
+        "Rbacx.C10.c10_spec_backoff",
         "Rbacx.C10.c10_backoff_bounded",
         "Rbacx.C10.c10_forced_still_loads",
         "Rbacx.C10.c10_unforced_suppressed",
